@@ -88,48 +88,49 @@ type callInfo struct {
 }
 
 type Engine struct {
-	prog        *ssa.Program
-	fset        *token.FileSet
-	pool        *SolverPool
-	repoPrefix  string
-	mu          sync.Mutex
-	obls        []*Obligation
-	oblSeq      map[string]int
-	nextObj     int
-	nextFrame   int
-	pd          map[*ssa.Function]*pdInfo
-	stubs       map[string]StubFn
-	funcsSeen   map[string]bool
-	stubsSeen   map[string]bool
-	loopsSeen   map[string]string
-	globals     map[*ssa.Global]int
-	harness     string
-	caseLabel   string
-	unwind      int
-	maxVisits   int
-	spawned     []string
-	paths       int
-	merges      int
-	caseVals    map[string]int // verifCase name -> chosen value for this run
-	caseRanges  map[string][2]int
-	caseOrder   []string
-	bounds      map[string]string
-	watchLocks  bool
-	lockGuard   map[string]string // "pkg.Type.field" -> mutex field
-	trace       bool
-	initDone    map[*ssa.Package]bool
-	initHeap    map[int]Value
-	assumptions map[string]bool
-	diskLog     []string
-	readLog     []string
-	handles     map[int]*fileHandle
-	tier        string
-	fixedCases  map[string]int
-	feasTimeout int
-	feasCalls   int
-	feasMs      int64
-	redirects   map[string]*ssa.Function
-	mainPkg     *ssa.Package
+	prog          *ssa.Program
+	fset          *token.FileSet
+	pool          *SolverPool
+	repoPrefix    string
+	mu            sync.Mutex
+	obls          []*Obligation
+	oblSeq        map[string]int
+	nextObj       int
+	nextFrame     int
+	pd            map[*ssa.Function]*pdInfo
+	stubs         map[string]StubFn
+	funcsSeen     map[string]bool
+	stubsSeen     map[string]bool
+	loopsSeen     map[string]string
+	globals       map[*ssa.Global]int
+	harness       string
+	caseLabel     string
+	unwind        int
+	maxVisits     int
+	spawned       []string
+	paths         int
+	merges        int
+	caseVals      map[string]int // verifCase name -> chosen value for this run
+	caseRanges    map[string][2]int
+	caseOrder     []string
+	bounds        map[string]string
+	watchLocks    bool
+	lockGuard     map[string]string // "pkg.Type.field" -> mutex field
+	trace         bool
+	initDone      map[*ssa.Package]bool
+	initHeap      map[int]Value
+	assumptions   map[string]bool
+	diskLog       []string
+	readLog       []string
+	handles       map[int]*fileHandle
+	tier          string
+	fixedCases    map[string]int
+	feasTimeout   int
+	feasCalls     int
+	feasMs        int64
+	enabledModels map[string]bool
+	redirects     map[string]*ssa.Function
+	mainPkg       *ssa.Package
 }
 
 func (e *Engine) site(instr ssa.Instruction) string {
@@ -502,7 +503,8 @@ func (e *Engine) merge2(c *Term, a, b *State) *State {
 type pdInfo struct {
 	ipdom []*ssa.BasicBlock // nil = exit
 	reach [][]bool
-	loops []map[int]bool // natural loops (sets of block indices)
+	loops   []map[int]bool // natural loops (sets of block indices)
+	headers []int          // header block of each loop
 }
 
 // continues reports whether taking successor k of the If in block b stays in
@@ -642,6 +644,7 @@ func (e *Engine) pdom(fn *ssa.Function) *pdInfo {
 				}
 			}
 			p.loops = append(p.loops, body)
+			p.headers = append(p.headers, h.Index)
 		}
 	}
 	e.pd[fn] = p
@@ -673,6 +676,16 @@ func (e *Engine) enter(st *State, target *ssa.BasicBlock, m marker) bool {
 	from := fr.block
 	fr.prev = from
 	fr.block = target
+	// entering a loop from outside starts a fresh unwinding count for its blocks
+	if pd := e.pdom(fr.fn); len(pd.loops) > 0 && from != nil {
+		for li, l := range pd.loops {
+			if pd.headers[li] == target.Index && !l[from.Index] {
+				for b := range l {
+					delete(fr.symv, b)
+				}
+			}
+		}
+	}
 	fr.visits[target.Index]++
 	if fr.visits[target.Index] > e.maxVisits {
 		panic(unsupported(fmt.Sprintf("block visit limit exceeded in %s block %d", fr.fn, target.Index)))
@@ -1057,7 +1070,7 @@ func (e *Engine) callFn(st *State, ci *callInfo, fn *ssa.Function, args []Value,
 		st.ret = nil
 		return st, nil
 	}
-	if rd := e.redirect(key); rd != nil && rd != fn {
+	if rd := e.redirect(key); rd != nil && rd != fn && (!e.isRepo(fn) || e.modelEnabled(rd.Name())) {
 		e.stubsSeen[shortFn(key)+" -> harness model "+rd.Name()] = true
 		return e.callFn(st, ci, rd, args, nil)
 	}
@@ -1125,6 +1138,16 @@ func (e *Engine) redirect(key string) *ssa.Function {
 	f := e.mainPkg.Func(mangle(key))
 	e.redirects[key] = f
 	return f
+}
+
+// modelEnabled: harness models that replace functions of the repository itself are opt-in per harness.
+func (e *Engine) modelEnabled(name string) bool {
+	for sub := range e.enabledModels {
+		if strings.Contains(name, sub) {
+			return true
+		}
+	}
+	return false
 }
 
 // callback runs a function value to completion from inside a stub; st is
